@@ -34,6 +34,8 @@ ENGINES = [
      "kind_free_text": "real expansion of corpus enums compiled by rustc and executed natively against a declaration-derived oracle (bounded; supplies the emission seam and replay inputs)"},
     {"name": "layer-S", "path": "lib/layer_s.py", "serves_properties": ["C06", "C07", "C08", "C09", "C10", "C15", "C16", "C17", "C18", "C19"],
      "kind_free_text": "structural obligations on the real expansion AST (vx) and finite catalogues decided by rustc"},
+    {"name": "layer-N", "path": "lib/layer_n.py", "serves_properties": ["C12", "C13", "C14"],
+     "kind_free_text": "bounded stand-in: designed catalogue of declarations with the verdict (reject/accept) the property demands, decided by the real macro + rustc"},
     {"name": "layer-K", "path": "lib/layer_k.py", "serves_properties": ["C01", "C02", "C03", "C05", "C06", "C07"],
      "kind_free_text": "Kani on the unmodified expansion of small corpus enums: full input domain per enum, loops fully unwound, built-in UB checks (invalid enum value, OOB, overflow)"},
     {"name": "layer-R", "path": "lib/layer_r.py", "serves_properties": ["C06", "C07", "C09", "C10"],
@@ -119,6 +121,33 @@ PROPS = {
         "explanation": "The discriminant evaluation walks syn ASTs, which neither verifier can take symbolically (see C12); what is decidable is the contract on the output per declaration. Complete per declaration (full domain for 8/16-bit try_from, every variant, every name probe), sampled over declarations.",
         "technique": "bounded: per-declaration contract check of the real expansion (rustc + native oracle), stand-in for a function outside the verifiers' reach",
         "note": "bounded exploration over declarations; trusted: rustc's `as` for the oracle side, the corpus generator's language rule for implicit discriminants",
+    },
+    "C12": {
+        "auxiliary": True,   # not registered in MANIFEST.json (listed under not_applicable): outside the technique family
+        "level": "exploration",
+        "claim": "bounded stand-in, never counted as proved: no contract can decide rejection (syn-AST pattern matching inside the proc-macro, observable only as rustc accept/reject); a designed catalogue of 31 declarations outside the domain (struct, union, no variants, every kind of field, 12 kinds of non-literal discriminant, values outside i64, missing/duplicated/non-primitive repr; thorough: 65535 variants) must each be rejected by the real macro + rustc, and 4 nearest in-domain controls must be accepted",
+        "layers": ["N"],
+        "explanation": "See DESIGN §4 C12: the technique of this task (contracts discharged by a deductive verifier) cannot express or decide this property; the catalogue is the bounded check the brief allows for a function outside the verifier's reach.",
+        "technique": "bounded: finite catalogue of declarations with demanded verdicts, decided by the real macro + rustc (stand-in; the property itself is outside contract-based verification)",
+        "note": "bounded over declarations (stated catalogue); trusted: rustc",
+    },
+    "C13": {
+        "auxiliary": True,   # not registered in MANIFEST.json (listed under not_applicable): outside the technique family
+        "level": "exploration",
+        "claim": "the three configuration-compatibility clauses implemented in Features::resolve (range without iter, range with table_inline, iter range on holes) are PROVED by Kani on the real resolve for all configurations; everything else (string-keyed attribute parsing, proc_macro_error reporting) is a bounded stand-in: 101 attribute contents with demanded verdicts (unknown/misspelled/repeated features and parameters, undocumented modes and visibilities, wrong kinds, the three clauses, 22 variant-level forms, split attributes; 5 controls) decided by the real macro + rustc",
+        "layers": ["R", "N"],
+        "explanation": "Level exploration because the bulk is a bounded catalogue; the R:legal:* obligations are complete over the configuration space.",
+        "technique": "Kani contract proof for the clauses inside Features::resolve + bounded catalogue of attribute contents (stand-in)",
+        "note": "bounded over attribute contents (stated catalogue); the three resolve clauses are proved",
+    },
+    "C14": {
+        "auxiliary": True,   # not registered in MANIFEST.json (listed under not_applicable): outside the technique family
+        "level": "exploration",
+        "claim": "bounded stand-in, never counted as proved: all 24 declaration orders of a 4-variant enum whose name order and value order differ (with a rename) x {sorted(value), sorted(name), sorted(name, value), no sorted} plus 18 designed cases (implicit discriminants, negative values, equal names, byte-wise order, single variant) must compile iff strictly sorted by the criterion — decided by the real macro + rustc",
+        "layers": ["N"],
+        "explanation": "The two comparisons live inside the syn-walking loop of parse_values (DESIGN §4 C14); the iff is observable only as accept/reject.  Exhaustive over the permutations of the 4-variant enum, bounded over enums.",
+        "technique": "bounded: exhaustive permutations of a small enum with demanded verdicts, decided by the real macro + rustc (stand-in)",
+        "note": "bounded over declarations (stated catalogue); trusted: rustc",
     },
     "C15": {
         "level": "other",
@@ -210,6 +239,11 @@ def collect(pid, tier, seed):
         r_ = driver.artifacts.get_i(tier, seed)
         n_ok = sum(1 for k, v in r_["modules"].items() if v.get("done"))
         obs.append(driver.Ob("I/probes-compiled", "ok" if n_ok else "undecided", "rustc", sample={"modules_with_probes_compiled": n_ok}))
+    if "N" in p["layers"]:
+        o, m = driver.collect_N(pid, tier, seed)
+        m["_layer"] = "N (bounded catalogue of declarations with demanded verdicts, rustc)"
+        obs += o
+        metas.append(m)
     if "K" in p["layers"]:
         o, m = driver.collect_K(pid, tier)
         m["_layer"] = "K (kani on the unmodified expansion of small enums, complete per enum)"
